@@ -1,0 +1,153 @@
+//go:build verif
+
+// Contracts for DenseStore, checked by /verif (govc). Comment-only: this file adds no code.
+// Weights are real numbers (assumption A-REAL), indexes are 64-bit machine integers.
+
+package store
+
+//@ mode ints=wrap floats=real
+
+//@ func min
+//@   inline
+//@ func max
+//@   inline
+
+// The abstract content of a dense store: the map index -> weight.
+//@ fun DView(s *DenseStore, k int) real := (s.offset <= k && k < s.offset + len(s.bins)) ? s.bins[k - s.offset] : 0.0
+//@ fun DSum(s *DenseStore) real := ASum(contents(s.bins), 0, len(s.bins))
+
+// Core invariant (holds also in the middle of a range extension):
+//  count is the sum of the bins, bins are non-negative, and when the window [minIndex,maxIndex] is
+//  non-empty it lies inside the array and every bin outside it is zero.
+//@ pred DRanges(s *DenseStore) := in32(s.minIndex) && in32(s.maxIndex) && 0 - 17179869184 <= s.offset && s.offset <= 17179869184 && len(s.bins) <= 8589934592
+//@ pred DNonneg(s *DenseStore) := forall j int :: 0 <= j && j < len(s.bins) ==> s.bins[j] >= 0.0
+//@ pred DWindowIn(s *DenseStore) := s.offset <= s.minIndex && s.maxIndex < s.offset + len(s.bins)
+//@ pred DZeroOutside(s *DenseStore) := forall j int :: 0 <= j && j < len(s.bins) && (j < s.minIndex - s.offset || j > s.maxIndex - s.offset) ==> s.bins[j] == 0.0
+//@ pred DCore(s *DenseStore) := DRanges(s) && s.count == DSum(s) && s.count >= 0.0 && DNonneg(s) && (s.minIndex <= s.maxIndex ==> DWindowIn(s)) && DZeroOutside(s)
+// Full invariant between public operations: empty = no storage in use and sentinel window; non-empty = tight window.
+//@ pred DEmptyState(s *DenseStore) := s.count == 0.0 && len(s.bins) == 0 && s.minIndex == 2147483647 && s.maxIndex == 0 - 2147483648
+//@ pred DTight(s *DenseStore) := s.minIndex <= s.maxIndex && s.bins[s.minIndex - s.offset] > 0.0 && s.bins[s.maxIndex - s.offset] > 0.0
+//@ pred DInv(s *DenseStore) := DCore(s) && (s.count == 0.0 ==> DEmptyState(s)) && (s.count > 0.0 ==> DTight(s))
+
+//@ func NewDenseStore
+//@   serves C04 C15
+//@   ensures result != nil && fresh(result) && DInv(result) && DEmptyState(result) using ASumEmpty(contents(result.bins), 0, 0)
+
+//@ func DenseStore.IsEmpty
+//@   serves C04 C12
+//@   ensures result == (s.count == 0.0)
+
+//@ func DenseStore.TotalCount
+//@   serves C04 C12 C01
+//@   ensures result == s.count
+
+//@ func DenseStore.MinIndex
+//@   serves C04 C12
+//@   ensures s.count == 0.0 ==> result1 != nil
+//@   ensures s.count != 0.0 ==> result1 == nil && result == s.minIndex
+
+//@ func DenseStore.MaxIndex
+//@   serves C04 C12
+//@   ensures s.count == 0.0 ==> result1 != nil
+//@   ensures s.count != 0.0 ==> result1 == nil && result == s.maxIndex
+
+//@ func DenseStore.Clear
+//@   serves C04 C15
+//@   requires DInv(s)
+//@   ensures DEmptyState(s) && arr(s.bins) == old(arr(s.bins)) && cap(s.bins) == old(cap(s.bins)) && s.offset == old(s.offset)
+//@   ensures DInv(s) using ASumEmpty(contents(s.bins), 0, 0)
+//@   modifies s
+
+//@ func DenseStore.resetBins
+//@   serves C04 C05
+//@   requires 0 <= fromIndex - s.offset && toIndex - s.offset < len(s.bins) && fromIndex <= toIndex + 1 && in64(fromIndex - s.offset) && in64(toIndex - s.offset)
+//@   ensures forall j int :: 0 <= j && j < len(s.bins) ==> s.bins[j] == ((fromIndex - s.offset <= j && j <= toIndex - s.offset) ? 0.0 : old(s.bins[j]))
+//@   modifies arr(s.bins)
+//@   loop 1 invariant fromIndex - s.offset <= i && i <= toIndex - s.offset + 1
+//@   loop 1 invariant forall j int :: 0 <= j && j < len(s.bins) ==> s.bins[j] == ((fromIndex - s.offset <= j && j < i) ? 0.0 : old(s.bins[j]))
+//@   loop 1 decreases toIndex - s.offset + 1 - i
+
+// getNewLength: in real arithmetic ((d+63)/0.1 + 1)*0.1 truncates to d+63 (the float constant 0.1 is the binary64 value)
+//@ func DenseStore.getNewLength
+//@   serves C04 C05
+//@   requires in32(newMinIndex) && in32(newMaxIndex) && newMinIndex <= newMaxIndex
+//@   ensures result == newMaxIndex - newMinIndex + 1 + 63
+
+// shiftCounts moves the window by `shift` array positions and compensates with the offset: the view is unchanged.
+//@ func DenseStore.shiftCounts
+//@   serves C04 C05
+//@   requires DCore(s) && s.minIndex <= s.maxIndex
+//@   requires 0 <= s.minIndex - s.offset + shift && s.maxIndex - s.offset + shift < len(s.bins) && in64(shift) && 0 - 8589934592 <= shift && shift <= 8589934592
+//@   ensures s.offset == old(s.offset) - shift && s.minIndex == old(s.minIndex) && s.maxIndex == old(s.maxIndex) && s.count == old(s.count) && s.bins == old(s.bins)
+//@   ensures view: forall k int :: DView(s, k) == old(DView(s, k))
+//@   ensures DNonneg(s) && DZeroOutside(s)
+//@   ensures sum: DSum(s) == old(DSum(s)) using ASumWindow(old(contents(s.bins)), 0, len(s.bins), old(s.minIndex - s.offset), old(s.maxIndex - s.offset)), ASumWindow(contents(s.bins), 0, len(s.bins), s.minIndex - s.offset, s.maxIndex - s.offset), ASumShift(old(contents(s.bins)), contents(s.bins), old(s.minIndex - s.offset), old(s.maxIndex - s.offset) + 1, shift)
+//@   modifies s.offset, arr(s.bins)
+
+// centerCounts re-centres the window [newMinIndex,newMaxIndex] (which contains the current window and fits the array).
+//@ func DenseStore.centerCounts
+//@   serves C04 C05
+//@   requires DCore(s) && s.minIndex <= s.maxIndex && in32(newMinIndex) && in32(newMaxIndex)
+//@   requires newMinIndex <= s.minIndex && s.maxIndex <= newMaxIndex && newMaxIndex - newMinIndex + 1 <= len(s.bins)
+//@   ensures DCore(s) && DWindowIn(s) && s.minIndex == newMinIndex && s.maxIndex == newMaxIndex && s.count == old(s.count) && s.bins == old(s.bins)
+//@   ensures view: forall k int :: DView(s, k) == old(DView(s, k))
+//@   modifies s.offset, s.minIndex, s.maxIndex, arr(s.bins)
+
+//@ func DenseStore.adjust
+//@   serves C04
+//@   requires DCore(s) && s.minIndex <= s.maxIndex && in32(newMinIndex) && in32(newMaxIndex)
+//@   requires newMinIndex <= s.minIndex && s.maxIndex <= newMaxIndex && newMaxIndex - newMinIndex + 1 <= len(s.bins)
+//@   ensures DCore(s) && DWindowIn(s) && s.minIndex == newMinIndex && s.maxIndex == newMaxIndex && s.count == old(s.count) && s.bins == old(s.bins)
+//@   ensures view: forall k int :: DView(s, k) == old(DView(s, k))
+//@   modifies s.offset, s.minIndex, s.maxIndex, arr(s.bins)
+
+// extendRange makes the window cover [newMinIndex,newMaxIndex] as well, growing and re-centring the array when needed.
+//@ func DenseStore.extendRange
+//@   serves C04 C15
+//@   requires DInv(s) && in32(newMinIndex) && in32(newMaxIndex) && newMinIndex <= newMaxIndex
+//@   ensures DCore(s) && DWindowIn(s) && s.count == old(s.count)
+//@   ensures window: s.minIndex == min(newMinIndex, old(s.minIndex)) && s.maxIndex == max(newMaxIndex, old(s.maxIndex))
+//@   ensures view: forall k int :: DView(s, k) == old(DView(s, k))
+//@   ensures alias: arr(s.bins) == old(arr(s.bins)) || fresh(arr(s.bins))
+//@   modifies s, arr(s.bins)
+//@   hint ASumZero(contents(s.bins), 0, len(s.bins))
+//@   hint ASumSplit(contents(s.bins), 0, old(len(s.bins)), len(s.bins)), ASumShift(old(contents(s.bins)), contents(s.bins), 0, old(len(s.bins)), 0), ASumZero(contents(s.bins), old(len(s.bins)), len(s.bins))
+
+//@ func DenseStore.normalize
+//@   serves C04
+//@   requires DInv(s) && in32(index)
+//@   ensures DCore(s) && DWindowIn(s) && s.count == old(s.count) && s.minIndex <= index && index <= s.maxIndex
+//@   ensures window: s.minIndex == min(index, old(s.minIndex)) && s.maxIndex == max(index, old(s.maxIndex))
+//@   ensures result == index - s.offset && 0 <= result && result < len(s.bins)
+//@   ensures view: forall k int :: DView(s, k) == old(DView(s, k))
+//@   ensures alias: arr(s.bins) == old(arr(s.bins)) || fresh(arr(s.bins))
+//@   modifies s, arr(s.bins)
+
+// The store is the map index -> accumulated weight: adding changes exactly one entry.
+//@ func DenseStore.AddWithCount
+//@   serves C04 C01 C02
+//@   requires DInv(s) && in32(index) && count >= 0.0
+//@   ensures DInv(s)
+//@   ensures s.count == old(s.count) + count
+//@   hint ASumUpdate(contents(s.bins), 0, len(s.bins), arrayIndex, s.bins[arrayIndex] + count)
+//@   ensures view: forall k int :: DView(s, k) == old(DView(s, k)) + (k == index ? count : 0.0)
+//@   ensures alias: arr(s.bins) == old(arr(s.bins)) || fresh(arr(s.bins))
+//@   modifies s, arr(s.bins)
+
+//@ func DenseStore.Add
+//@   serves C04 C01
+//@   requires DInv(s) && in32(index)
+//@   ensures DInv(s) && s.count == old(s.count) + 1.0
+//@   ensures view: forall k int :: DView(s, k) == old(DView(s, k)) + (k == index ? 1.0 : 0.0)
+//@   modifies s, arr(s.bins)
+
+//@ func Bin.Index
+//@   inline
+//@ func Bin.Count
+//@   inline
+//@ func DenseStore.AddBin
+//@   serves C04
+//@   requires DInv(s) && in32(bin.index) && bin.count >= 0.0
+//@   ensures DInv(s) && s.count == old(s.count) + bin.count
+//@   ensures view: forall k int :: DView(s, k) == old(DView(s, k)) + (k == bin.index ? bin.count : 0.0)
+//@   modifies s, arr(s.bins)
